@@ -321,9 +321,9 @@ package middleware
 //@ watch BV = call (*Context).BindAndValidate
 //@ watch HD = invoke (runtime.OperationHandler).Handle
 //@ watch RS = call (*Context).Respond
-//@ assume after RI ret(RI,0,0) != nil
-//@ requires r != nil && r.URL != nil && context != nil && context.debugLogf != nil && oh != nil
-//@ stable r.URL
+//@ assume after RI ret(RI,0,0) != nil && forall k string :: in(k, ret(RI,0,0).Producers) ==> ret(RI,0,0).Producers[k] != nil
+//@ requires w != nil && r != nil && r.URL != nil && context != nil && context.debugLogf != nil && context.api != nil && oh != nil
+//@ stable r.URL, comp:MV!Str!Iface, comp:MD!Str!Iface, comp:F!net/http.Request!URL
 //@ ensures [bind] calls(RI) == 1 && calls(BV) == 1 && arg(BV,0,2) == ret(RI,0,0) && arg(BV,0,1) == (ret(RI,0,1) != nil ? ret(RI,0,1) : r)
 //@ ensures [nohandler] ret(BV,0,2) != nil ==> calls(HD) == 0 && calls(RS) == 1 && arg(RS,0,5) == ret(BV,0,2) && arg(RS,0,4) == ret(RI,0,0)
 //@ ensures [handler] ret(BV,0,2) == nil ==> calls(HD) == 1 && recv(HD,0) == oh && arg(HD,0,0) == ret(BV,0,0) && calls(RS) == 1 && arg(RS,0,1) == w && arg(RS,0,2) == ret(BV,0,1) && arg(RS,0,4) == ret(RI,0,0)
@@ -334,12 +334,13 @@ package middleware
 //@ watch VR = call validateRequest
 //@ watch CE = call github.com/go-openapi/errors.CompositeValidationError
 //@ requires c != nil && c.debugLogf != nil && request != nil && request.URL != nil && matched != nil
-//@ stable request.URL
+//@ stable request.URL, request.Method
 //@ ensures [C09:lookup] calls(CV) == 1 && arg(CV,0,0) == boxof(ctxBoundParams)
 //@ ensures [C09:memo] typeis(ret(CV,0,0), "*github.com/go-openapi/runtime/middleware.validation") ==> calls(VR) == 0 && result1 == request
 //@ ensures [C09:compute] !typeis(ret(CV,0,0), "*github.com/go-openapi/runtime/middleware.validation") ==> calls(VR) == 1 && arg(VR,0,0) == c && arg(VR,0,1) == request && arg(VR,0,2) == matched
 //@ ensures [C06:outcome] calls(VR) == 1 ==> (result2 != nil <==> len(ret(VR,0,0).result) > 0)
 //@ ensures [C06:error] result2 != nil ==> calls(CE) == 1 && result2 == boxof(ret(CE,0,0))
+//@ ensures [C09:samereq] result1 != nil && result1.URL == old(request.URL) && result1.Method == old(request.Method)
 
 //@ func (*Context).ResponseFormat
 //@ watch CV = invoke (context.Context).Value
@@ -476,7 +477,9 @@ package middleware
 //@ watch RS = call (*Context).Respond
 //@ assume after RI ret(RI,0,0) != nil
 //@ assume after RI forall i int, k string :: 0 <= i && i < len(ret(RI,0,0).Authenticators) && in(k, ret(RI,0,0).Authenticators[i].Authenticator) ==> ret(RI,0,0).Authenticators[i].Authenticator[k] != nil
-//@ requires rw != nil && r != nil && ctx != nil && next != nil
+//@ assume after RI forall k string :: in(k, ret(RI,0,0).Producers) ==> ret(RI,0,0).Producers[k] != nil
+//@ requires rw != nil && r != nil && r.URL != nil && ctx != nil && ctx.debugLogf != nil && ctx.api != nil && next != nil
+//@ stable r.URL, comp:MV!Str!Iface, comp:MD!Str!Iface, comp:F!net/http.Request!URL
 //@ ensures [C02:one] calls(NX) + calls(RS) == 1 && calls(RI) == 1 && calls(NA) == 1 && arg(NA,0,0) == ret(RI,0,0)
 //@ ensures [C02:open] !ret(NA,0,0) ==> calls(AZ) == 0 && calls(NX) == 1
 //@ ensures [C02:gate] ret(NA,0,0) ==> calls(AZ) == 1 && arg(AZ,0,0) == ctx && arg(AZ,0,2) == ret(RI,0,0) && arg(AZ,0,1) == (ret(RI,0,1) != nil ? ret(RI,0,1) : r)
